@@ -138,6 +138,14 @@ func c20corpus() []c20prog {
 		`(def a (vall str:"x")) (list (_method a MakeInner:) (_method a EchoInner: (vinner s:"z" n:3)))`,
 		`(unjson (raw "{\"b\":1,\"a\":2,\"c\":{\"z\":1,\"y\":[1,2]}}"))`,
 		`(str (unjson (raw "{\"Atype\":\"ranch2\",\"q\":1,\"p\":2}")))`,
+		// decoded data whose member names the interpreter has never seen: their symbol numbers are assigned while decoding
+		// (differences of numbers: absolute numbers depend on the process history, which is the recorded finding gen04)
+		`(def h (unjson (raw "{\"Atype\":\"hash\", \"nqa\":1, \"nqb\":{\"Atype\":\"hash\", \"nqz\":1, \"nqy\":2, \"zKeyOrder\":[\"nqz\",\"nqy\"]}, \"nqc\":[1, 2], \"nqd\":4, \"zKeyOrder\":[\"nqd\",\"nqa\",\"nqb\",\"nqc\"]}"))) (list (str h) (keys h) (- (symnum (str2sym "nqa")) (symnum (str2sym "nqd"))) (- (symnum (str2sym "nqz")) (symnum (str2sym "nqc"))) (< (str2sym "nqa") (str2sym "nqc")) (< (str2sym "nqy") (str2sym "nqd")))`,
+		`(def h (unjson (raw "{\"mqa\":1, \"mqb\":{\"mqz\":1, \"mqy\":2}, \"mqc\":3}"))) (list (str h) (- (symnum (str2sym "mqa")) (symnum (str2sym "mqc"))) (- (symnum (str2sym "mqy")) (symnum (str2sym "mqb"))) (< (str2sym "mqa") (str2sym "mqz")))`,
+		`(def h (unmsgpack (msgpack (unjson (raw "{\"pqa\":1, \"pqb\":2, \"pqc\":{\"pqd\":1,\"pqe\":2}}"))))) (list (str h) (keys h) (- (symnum (str2sym "pqa")) (symnum (str2sym "pqe"))) (- (symnum (str2sym "pqb")) (symnum (str2sym "pqd"))))`,
+		// member names equal up to letter case, no recorded key order
+		`(def h (unjson (raw "{\"id\":1, \"ID\":2, \"Id\":3, \"iD\":4, \"x\":{\"k\":1,\"K\":2}}"))) (list (str h) (keys h) (json h) (hpair h 0) (hpair h 3))`,
+		`(def h (unmsgpack (msgpack (unjson (raw "{\"ab\":1, \"AB\":2, \"Ab\":3}"))))) (list (str h) (keys h) (json h))`,
 	}
 	for i, g := range gen {
 		ps = append(ps, c20prog{name: fmt.Sprintf("gen%02d", i), src: g, demo: true})
